@@ -110,10 +110,10 @@ theorem handle_of_carries {s : St} {p p' : Pkt} {e : Nat} (h : Carries s p e) (h
   unfold handle
   rw [lookup_of_carries h hf hal hport]
   simp only [Option.map]
-  show attempts (maxRetry + 1 + 1) s p' _ _ 0 ws = _
+  show attempts (s.maxRetry + 1 + 1) s p' _ _ 0 ws = _
   unfold attempts
   have hk := attemptKey_of_carries h hf hport
-  simp only [hk, maxRetry, Nat.not_lt_zero, if_false, and_self, if_true, hw]
+  simp only [hk, Nat.not_lt_zero, if_false, and_self, if_true, hw]
   have : writeOk s e true = true := by unfold writeOk; simp [h.alive, h.isOpen]
   simp [this]
 
@@ -169,9 +169,9 @@ theorem handle_establishes {s : St} {p : Pkt} (hwf : ∀ k c, s.pool k = some c 
   have hrun : handle s p ws = ((getOrCreate s (dialKey false p.scope p.force p.d) p.d.dst).1, some s.neps) := by
     unfold handle
     rw [h]
-    show attempts (maxRetry + 1 + 1) s p none none 0 ws = _
+    show attempts (s.maxRetry + 1 + 1) s p none none 0 ws = _
     unfold attempts
-    simp only [maxRetry, Nat.not_lt_zero, if_false, hk]
+    simp only [Nat.not_lt_zero, if_false, hk]
     have hgoc : (getOrCreate s (dialKey false p.scope p.force p.d) p.d.dst).2.1 = s.neps := by
       unfold getOrCreate; rw [hgetk]
       cases hp : s.pool (dialKey false p.scope p.force p.d) <;> rfl
